@@ -268,10 +268,11 @@ def extract_as_and_target_segment(
 ) -> tuple[Optional[BaseSegment], BaseSegment]:
     as_segment = segment.get_child("alias_expression")
     sublist = list_child_segments(segment, False)
-    target = sublist[0]
-    if target.type == "keyword" and target.raw_upper == "LATERAL":
-        target = sublist[1]
-    table_expr = target if is_subquery(target) else target.segments[0]
+    # skip leading keyword like LATERAL, or TABLE in exasol
+    target = next((seg for seg in sublist if seg.type != "keyword"), segment)
+    table_expr = (
+        target if is_subquery(target) or not target.segments else target.segments[0]
+    )
     return as_segment, table_expr
 
 
